@@ -15,6 +15,8 @@ dataset's axis names are pairwise distinct (`SetVarOK`, defined in DimModel/Proo
 -/
 import DimModel.Proofs.C13
 import DimModel.Lib.DatasetCtor
+import DimModel.Proofs.C13Ctor
+import DimModel.Props.C06
 namespace DimModel
 open DS
 
@@ -310,5 +312,94 @@ theorem inv_from_construct_renameFree {α : Type} (nan : α) (keys : List String
     Inv (run s ops) := by
   obtain ⟨-, -, hinv, hn, -⟩ := construct_inv nan keys arrays vals s h
   exact inv_run s ops hinv (runOK_of_renameFree s ops hinv hn hr)
+
+/-- **what the constructed dataset holds**: after `Dataset(dict(zip(keys, arrays)))` did not raise (distinct keys), the
+variable of every key resolves - through the ids of its axis objects on the heap, in its own dimension order - to exactly the
+names and labels of the axes of the ALIGNED array of that key (`DS.Has`, Proofs/C13Ctor.lean): every later `__setitem__` of an
+aligned array found the axis of the same name with the same labels (`sameAxis`), shared it, and no assignment replaced or
+deleted an axis object that an earlier variable refers to.  The aligned arrays are those of `Lib.align` (outer join, no sort):
+`construct_vars_values` says what they are. -/
+theorem construct_vars_spec {α : Type} (nan : α) (keys : List String) (arrays vals : List (DimArray α)) (s : State)
+    (h : construct nan keys arrays = .ok (vals, s)) (hk : keys.Nodup) :
+    Lib.align nan arrays .outer none false false = .ok vals ∧
+    ∀ (i : Nat) (k : String) (v : DimArray α), keys[i]? = some k → vals[i]? = some v →
+      Has s k (v.axes.map fun ax => (ax.name, ax.labels)) := by
+  unfold construct at h
+  cases hal : Lib.align nan arrays .outer none false false with
+  | error e => rw [hal] at h; cases h
+  | ok vs =>
+    rw [hal] at h
+    simp only [bind, Except.bind] at h
+    cases hr : runAll init (ctorOps keys vs) with
+    | error e => rw [hr] at h; cases h
+    | ok s1 =>
+      rw [hr] at h
+      simp only [pure, Except.pure, Except.ok.injEq, Prod.mk.injEq] at h
+      obtain ⟨rfl, rfl⟩ := h
+      refine ⟨rfl, ?_⟩
+      intro i k v hki hvi
+      have hops : ctorOps keys vs =
+          ((keys.zip vs).map fun kv => (kv.1, axesSpec kv.2)).map (fun kv => Op.setVar kv.1 kv.2) := by
+        simp [ctorOps, List.map_map, Function.comp_def]
+      rw [hops] at hr
+      have hz : (keys.zip vs)[i]? = some (k, v) := List.getElem?_zip_eq_some.2 ⟨hki, hvi⟩
+      have hget : ((keys.zip vs).map fun kv => (kv.1, axesSpec kv.2))[i]? = some (k, axesSpec v) := by
+        rw [List.getElem?_map, hz]; rfl
+      have := runAll_has _ init s1 inv_init (by simp [NamesNodup, init]) hr i (k, axesSpec v) hget ?_
+      · have hspec : ((k, axesSpec v).2.map fun x => (x.1, x.2.1)) = v.axes.map fun ax => (ax.name, ax.labels) := by
+          simp [axesSpec, List.map_map, Function.comp_def]
+        rw [hspec] at this
+        exact this
+      · intro hm
+        obtain ⟨kv', hkv', hk'⟩ := List.mem_map.1 hm
+        obtain ⟨j, hj⟩ := List.mem_iff_getElem?.1 hkv'
+        rw [List.getElem?_drop, List.getElem?_map] at hj
+        cases hzj : (keys.zip vs)[i + 1 + j]? with
+        | none => simp [hzj] at hj
+        | some kv2 =>
+          obtain ⟨k2, v2⟩ := kv2
+          simp only [hzj, Option.map_some, Option.some.injEq] at hj
+          subst hj
+          simp only at hk'
+          subst hk'
+          have hkj := (List.getElem?_zip_eq_some.1 hzj).1
+          have hi : i < keys.length := by
+            rcases Nat.lt_or_ge i keys.length with h | h
+            · exact h
+            · rw [List.getElem?_eq_none h] at hki; cases hki
+          have := (List.getElem?_inj hi hk).mp (hki.trans hkj.symm)
+          omega
+
+/-- the arrays the constructor stores are the inputs re-indexed onto the outer-join axes: C06's `align_all_spec` /
+`align_all_labels` apply to them as they are (every dimension gets ONE common axis carrying the union of the labels of the
+inputs that have it; each value sits at the coordinates of its labels, `nan` elsewhere) -/
+theorem construct_vars_values {α : Type} (nan : α) (keys : List String) (arrays vals : List (DimArray α)) (s : State)
+    (h : construct nan keys arrays = .ok (vals, s)) (hin : ∀ a ∈ arrays, AlignInput a) :
+    vals.length = arrays.length ∧
+    ∃ commons : List Axis,
+      Lib.getAlignedAxes (arrays.map (·.axes)) .outer none false false = .ok commons ∧
+      (∀ c ∈ commons, ∀ v : Label, c.labels.Nodup ∧
+        (v ∈ c.labels ↔ ∃ a ∈ arrays, ∃ ax ∈ a.axes, ax.name = c.name ∧ v ∈ ax.labels)) ∧
+      ∀ i (hi : i < arrays.length) (ho : i < vals.length),
+        vals[i].dims = arrays[i].dims ∧
+        (∀ k, k < arrays[i].axes.length →
+          ∃ c ∈ commons, c.name = (arrays[i].axes.getD k default).name ∧
+            (vals[i].axes.getD k default).labels = c.labels) ∧
+        ∀ j, InRange (vals[i].axes.map (·.labels.length)) j →
+          vals[i].vals.get j = (alignVals arrays[i] (vals[i].axes.map (·.labels)) nan).get j := by
+  have hal := (construct_inv nan keys arrays vals s h).1
+  obtain ⟨hlen, commons, hg, hsp⟩ := align_all_spec nan arrays vals .outer false hin hal
+  have hlab := align_all_labels arrays .outer false hin commons hg
+  refine ⟨hlen, commons, hg, ?_, ?_⟩
+  · intro c hc v
+    have := hlab.2.2 c hc v
+    exact ⟨this.1, this.2.1 rfl⟩
+  · intro i hi ho
+    have := hsp i hi ho
+    exact ⟨this.1, this.2.2.1, this.2.2.2.2⟩
+
+/-- non-vacuity of the run behind `construct_vars_spec`: the second assignment shares the axes of the first -/
+example : (runAll init (ctorOps ["a", "b"] [exAlignB, exAlignB])).toOption.isSome = true := by
+  decide
 
 end DimModel
